@@ -116,6 +116,51 @@ def check_aspire_level(chk, r, n):
                      f"Aspire.n_likelihood_evaluations = {a.n_likelihood_evaluations}, points = {t.points_like}", {"clause": "count", "level": "aspire"})
 
 
+def check_several_objects(chk, r, n):
+    """the count belongs to ONE sampler object: several samplers (and Aspire objects) alive in one process, built and run in an
+    interleaved order, each report the points THEIR likelihood was asked to evaluate - building or running another object changes
+    nothing (two analyses in one script, a notebook that keeps the first sampler around)"""
+    from aspire.samplers.importance import ImportanceSampler
+    from aspire.samplers.smc.minipcn import MiniPCNSMC
+
+    for i in range(n):
+        dims = 2
+        ta, tb, tc = smcrun.Target(dims), smcrun.Target(dims), smcrun.Target(dims)
+        fa, fb, fc = (smcrun.make_proposal(dims, seed=100 * i + k) for k in range(3))
+        mk = lambda K, t, f, **kw: K(log_likelihood=t.log_likelihood, log_prior=t.log_prior, dims=dims, prior_flow=f, xp=np, parameters=["a", "b"], **kw)   # noqa: E731
+        order = ("ABab", "AaBb", "ABba", "AaBCcb")[i % 4]
+        objs, tg = {}, {"A": ta, "B": tb, "C": tc}
+        case = {"level": "several_objects", "order": order, "i": i}
+        chk.count("several_objects:" + order)
+        chk.case(case if chk.evaluations < 40 else None, json.dumps(case))
+        try:
+            with_rng = np.random.default_rng(i)
+            for ch in order:
+                if ch == "A":
+                    objs["A"] = mk(ImportanceSampler, ta, fa)
+                elif ch == "B":
+                    objs["B"] = mk(MiniPCNSMC, tb, fb, rng=with_rng)
+                elif ch == "C":
+                    objs["C"] = mk(ImportanceSampler, tc, fc)
+                elif ch == "a":
+                    objs["A"].sample(40 + 10 * i)
+                elif ch == "b":
+                    objs["B"].sample(12, sampler_kwargs={"n_steps": 2}, n_final_samples=20 if i % 2 else None)
+                elif ch == "c":
+                    objs["C"].sample(25)
+                # after EVERY step, every object that exists reports its own points
+                for nm, o in objs.items():
+                    if int(o.n_likelihood_evaluations) != tg[nm].points_like:
+                        chk.fail("reported evaluations = points the likelihood was asked to evaluate", {**case, "after": ch, "object": nm},
+                                 f"after step `{ch}` of `{order}`: sampler {nm} reports {int(o.n_likelihood_evaluations)} evaluations, its likelihood was asked for "
+                                 f"{tg[nm].points_like} points", {"clause": "count", "level": "several_objects"})
+                        raise StopIteration
+        except StopIteration:
+            pass
+        except Exception as exc:   # noqa
+            chk.fail("run total", case, repr(exc)[:300], {"clause": "raise", "level": "several_objects"})
+
+
 def run(chk: core.Check):
     r = np.random.default_rng(chk.seed + 17017)
     quick = chk.tier == "quick"
@@ -128,6 +173,7 @@ def run(chk: core.Check):
     for i in range(60 if quick else 1200):
         check_run(chk, c10.gen_cfg(r, i), lines, keep)
     check_aspire_level(chk, r, 9 if quick else 90)
+    check_several_objects(chk, r, 8 if quick else 40)
     for (case, reported, like_sizes), rep in zip(keep, drv.batch(lines)):
         if not rep.ok:
             raise core.HarnessError(rep.err)
